@@ -31,7 +31,8 @@ from mc.explore import Chooser, dfs_choices
 from mc.pool import pmap
 from mc.stats import Stats
 
-MARKERS = ("a", "e", "fwd", "ins", "insh", "m", "reg", "ereg", "addarg", "rui", "rui2", "rauw", "eo", "victim", "pure", "c")
+MARKERS = ("a", "e", "fwd", "ins", "insh", "insh0", "m", "reg", "ereg", "addarg", "rui", "rui2", "rauw", "eo", "eo2", "victim", "pure", "c")
+ERASERS = frozenset({"eo", "eo2", "ereg"})
 # (needs_operand, n_results, has_region)
 SHAPE = {
     "a": (False, 1, False), "b": (False, 1, False), "c": (False, 1, False), "e": (False, 1, False),
@@ -39,6 +40,7 @@ SHAPE = {
     "ereg": (False, 0, True), "addarg": (False, 0, True), "rui": (True, 1, False), "eo": (False, 0, False),
     "victim": (False, 1, False), "pure": (False, 1, False),
     "rui2": (True, 1, False), "rauw": (True, 1, False), "insh": (False, 1, False),
+    "insh0": (False, 1, False), "eo2": (False, 0, False),
 }
 # bodies placed inside region-carrying markers; an entry (marker, inner) with inner != None is itself an op with a
 # region holding the inner ops, so erasing the outer op leaves GRANDCHILDREN pending in the worklist
@@ -200,6 +202,38 @@ def make_patterns():
             expect("modification", op)
             rewriter.notify_op_modified(op)
 
+    class InsertNoResultWithNameHint(RewritePattern):
+        """a ZERO-RESULT op inserted while the rewriter carries a name hint (nothing to name, still an insertion)"""
+        def match_and_rewrite(self, op, rewriter):
+            if marker(op) != "insh0":
+                return
+            new = _mk("m", nres=0)
+            expect("insertion", new)
+            rewriter.name_hint = "hinted"
+            rewriter.insert(new, InsertPoint.before(op))
+            _set(op, "c")
+            expect("modification", op)
+            rewriter.notify_op_modified(op)
+
+    class EraseOtherThenInsertPair(RewritePattern):
+        """erases a queued op (leaving a hole in the worklist), then inserts an eraser and a fresh victim: under a
+        non-LIFO pop the new eraser runs first and erases the new victim while it is still queued"""
+        def match_and_rewrite(self, op, rewriter):
+            if marker(op) != "eo2":
+                return
+            nxt = op.next_op
+            if nxt is not None and marker(nxt) == "victim" and all(r.first_use is None for r in nxt.results):
+                expect("removal", nxt)
+                rewriter.erase(nxt)
+            e2, v2 = _mk("eo", nres=0), _mk("victim")
+            expect("insertion", e2)
+            expect("insertion", v2)
+            rewriter.insert(e2, InsertPoint.before(op))
+            rewriter.insert(v2, InsertPoint.before(op))
+            _set(op, "c")
+            expect("modification", op)
+            rewriter.notify_op_modified(op)
+
     class Modify(RewritePattern):
         def match_and_rewrite(self, op, rewriter):
             if marker(op) != "m":
@@ -274,8 +308,9 @@ def make_patterns():
             expect("modification", op)
             rewriter.notify_op_modified(op)
 
-    return [Replace("a", "b"), Replace("b", "c"), EraseUnused(), Forward(), InsertThenMark(), InsertWithNameHint(), Modify(), InlineRegion(),
-            EraseWithRegion(), AddArg(), ReplaceUsesIf(), ReplaceUsesIfOnly(), ReplaceAllUsesOnly(), EraseOther()]
+    return [Replace("a", "b"), Replace("b", "c"), EraseUnused(), Forward(), InsertThenMark(), InsertWithNameHint(), InsertNoResultWithNameHint(), Modify(),
+            InlineRegion(), EraseWithRegion(), AddArg(), ReplaceUsesIf(), ReplaceUsesIfOnly(), ReplaceAllUsesOnly(), EraseOther(),
+            EraseOtherThenInsertPair()]
 
 
 # ------------------------------------------------------------------ one execution
@@ -425,10 +460,13 @@ CONFIGS_ALL = [(wr, rf, rec, rp, dce) for wr in (False, True) for rf in (False, 
 
 
 def _shard(arg) -> Stats:
-    max_ops, configs, bound, shard, nshards, seed, cap = arg
+    max_ops, configs, bound, shard, nshards, seed, cap = arg[:7]
+    only = arg[7] if len(arg) > 7 else None
     st = Stats()
     for si, desc in enumerate(seeds(max_ops)):
         if si % nshards != shard:
+            continue
+        if only is not None and not any(op[0] in only for op in desc):
             continue
         st.states += 1
         interesting = False
@@ -464,14 +502,19 @@ def run(ctx):
     n = 64
     default_cfgs = [c for c in CONFIGS_ALL if c[3] is False]      # 16: all walker configs x dce, pattern order forward
     post_cfgs = [c + (True,) for c in CONFIGS_ALL if c[3] is False]
+    # seeds in which a match erases ANOTHER op (possibly one that is still queued) are the schedule-sensitive ones:
+    # they get one more deviation under the two default walker directions
+    two_dirs = [(False, False, True, False, True), (True, False, True, False, True)]
     if ctx.quick:
-        plans = [(2, CONFIGS_ALL, 1, 400), (2, post_cfgs, 0, 50), (3, [(False, False, True, False, True)], 0, 50)]
+        plans = [(2, CONFIGS_ALL, 1, 400, None), (2, two_dirs, 2, 5000, ERASERS), (2, post_cfgs, 0, 50, None),
+                 (3, [(False, False, True, False, True)], 0, 50, None)]
     else:
-        plans = [(2, CONFIGS_ALL, 2, 2000), (2, post_cfgs, 1, 500), (3, default_cfgs, 1, 300)]
-    for max_ops, cfgs, bound, cap in plans:
-        for _, st in pmap(_shard, [(max_ops, cfgs, bound, i, n, ctx.seed, cap) for i in range(n)]):
+        plans = [(2, CONFIGS_ALL, 2, 2000, None), (2, post_cfgs, 1, 500, None), (3, default_cfgs, 1, 300, None), (3, two_dirs, 2, 5000, ERASERS)]
+    for max_ops, cfgs, bound, cap, only in plans:
+        for _, st in pmap(_shard, [(max_ops, cfgs, bound, i, n, ctx.seed, cap, only) for i in range(n)]):
             ctx.merge(st)
-    ctx.bounds = {"plans": [{"max_marker_ops": p[0], "configs": len(p[1]), "deviation_bound": p[2], "max_executions_per_seed_config": p[3]} for p in plans],
+    ctx.bounds = {"plans": [{"max_marker_ops": p[0], "configs": len(p[1]), "deviation_bound": p[2], "max_executions_per_seed_config": p[3],
+                             "only_seeds_containing": sorted(p[4]) if p[4] else "all"} for p in plans],
                   "markers": list(MARKERS)}
     ctx.rule = ("every block of <= N marker ops (all operand wirings, nested bodies) x walker/applier configurations x every worklist pop "
                 "order with at most k deviations from LIFO; states = seeds, transitions = pop choices, executions = complete runs of the real "
